@@ -12,7 +12,7 @@ A1 == [ip |-> "ip1", port |-> 1]
 A2 == [ip |-> "ip1", port |-> 2]      \* same IP, other port (match_ip_incoming ambiguity)
 A3 == [ip |-> "ip2", port |-> 1]
 Addrs == {A1, A2, A3}
-Keys  == {"k1", "k2", "k3"}      \* as projected by the harness
+Keys  == {"k1", "k2", "k3", "address_in"}      \* as projected by the harness; the last one is a dynamic attribute spelt like a member
 ActKeys == {"k1", "k2"}
 KV(k, v) == [k |-> k, v |-> v]
 
@@ -45,6 +45,9 @@ Acts ==
   \cup {Act("attr_read", A1, FALSE, <<>>, i, k, NoneV) : i \in Ids, k \in ActKeys}
   \cup {Act("attr_write", A1, FALSE, <<>>, i, k, v) : i \in Ids, k \in ActKeys, v \in {StrV("x"), StrV("y"), NoneV}}
   \cup {Act("delete_attr", A1, FALSE, <<>>, i, k, NoneV) : i \in Ids, k \in ActKeys}
+  \* a dynamic attribute whose key is spelt like the member every lookup goes by, holding an address of the pool
+  \cup {Act("attr_write", A1, FALSE, <<>>, i, "address_in", AddrV(A2)) : i \in Ids}
+  \cup {Act("delete_attr", A1, FALSE, <<>>, i, "address_in", NoneV) : i \in Ids}
 
 NoAct == Act("init", A1, FALSE, <<>>, 0, "", NoneV)
 
